@@ -100,30 +100,72 @@ def reader_check(ctx, prop):
     mc_for(ctx, prop)
     pool = st.frame_pool(rng)
     big = ctx.thorough
+    # input (SET / POLL) frames built from the TLC layouts: streams read with msgmode SET / POLL / SETPOLL use them
+    inpool = []
+    if prop in ("C06", "C11", "C12"):
+        from ..common import frame as _frame
+        from ..drivers import walk as _walk
+
+        ctx.defs_file()
+        for l in _walk.load_layouts(ctx, "MC_Walk_quick.cfg"):
+            if l["reachable"] and l["pbf"] and l["m"] in (1, 2) and l["c"] in (0, 1) and (l["len"] is None or l["len"] < 200):
+                inpool.append((_frame(l["cls"], l["id"], _walk.fill(l, "rand", rng, ctx.defs["cfgdb"])), "UBX"))
+        inpool = inpool + [x for x in pool if x[1] != "UBX"]
     # sizes per property (quick, thorough)
     alpha_len = {"C07": (5, 6), "C08": (4, 5), "C09": (4, 5), "C11": (4, 5), "C12": (4, 5), "C06": (0, 0)}[prop][1 if big else 0]
     n_clean = {"C06": (500, 4000), "C07": (20, 200), "C08": (30, 300), "C09": (25, 250), "C11": (40, 400), "C12": (60, 600)}[prop][1 if big else 0]
     n_garb = {"C06": (0, 0), "C07": (150, 1500), "C08": (200, 2000), "C09": (25, 250), "C11": (60, 600), "C12": (80, 800)}[prop][1 if big else 0]
 
     def cfgmix():
-        return {"msgmode": rng.choice((0, 0, 0, 1, 2, 3)), "validate": rng.choice((1, 1, 1, 0)), "pbf": rng.choice((1, 0)), "labelmsm": rng.choice((1, 1, 2))}
+        return {"msgmode": rng.choice((0, 0, 0, 1, 2, 3)), "validate": rng.choice((1, 1, 1, 0)), "pbf": rng.choice((1, 0)), "labelmsm": rng.choice((1, 1, 2)),
+                "streamkind": rng.choice(("min", "bytesio"))}
 
     def gen_small():
         for S in st.alphabet_streams(alpha_len):
-            yield ("runs", {"prop": prop, "S": S.hex(), "recipe": [], "plan": plans(prop, rng, S, False), "conf": 1 if prop == "C07" else 0})
+            yield ("runs", {"prop": prop, "S": S.hex(), "recipe": [], "plan": plans(prop, rng, S, False), "conf": 1 if prop == "C07" else 0,
+                            "streamkind": "bytesio" if len(S) % 2 else "min"})
+
+    def gen_nested():
+        """frames within frames, alone and between ordinary frames"""
+        nest = st.nested_frames(rng)
+        simple = [x for x in pool if len(x[0]) < 60]
+        for f, p in nest:
+            for shape in range(3 if not big else 6):
+                parts = ([rng.choice(simple)] if shape % 2 else []) + [(f, p)] + ([rng.choice(simple)] if shape > 0 else [])
+                pos = 0
+                rec = []
+                for fr, pp in parts:
+                    rec.append({"a": pos, "b": pos + len(fr), "p": pp, "ok": -1, "dd": "", "fam": ""})
+                    pos += len(fr)
+                S = b"".join(fr for fr, _ in parts)
+                for kind in ("min", "bytesio"):
+                    yield ("runs", {"prop": prop, "S": S.hex(), "recipe": rec, "plan": plans(prop, rng, S, True), "conf": 0, "streamkind": kind})
 
     def gen_big():
         for k in range(n_clean):
             nfr = rng.randrange(2, 12) if prop == "C09" else rng.randrange(5, 60)
-            S, recipe = st.clean_stream(rng, pool, nfr, noise_p=rng.choice((0.0, 0.3, 0.6)))
+            mix = cfgmix()
+            usepool = inpool if (inpool and mix["msgmode"] != 0) else pool
+            S, recipe = st.clean_stream(rng, usepool, nfr, noise_p=rng.choice((0.0, 0.3, 0.6)))
             c = {"prop": prop, "S": S.hex(), "recipe": recipe, "plan": plans(prop, rng, S, True), "conf": 1 if prop in ("C06", "C07") else 0}
-            c.update(cfgmix())
+            c.update(mix)
             yield ("runs", c)
+            if prop in ("C12", "C08") and k % 3 == 0 and len(S) > 8:
+                # the same stream delivered in bursts (a serial port with timeout: read(n) may return fewer bytes before the end)
+                b = dict(c)
+                b["recipe"] = []
+                b["conf"] = 0
+                b["bursts"] = sorted(rng.sample(range(1, len(S)), min(len(S) - 1, rng.randrange(1, 6))))
+                yield ("runs", b)
         for k in range(n_garb):
             S = st.garbage_stream(rng, pool, rng.randrange(2, 8) if prop == "C09" else rng.randrange(3, 40))
             c = {"prop": prop, "S": S.hex(), "recipe": [], "plan": plans(prop, rng, S, False), "conf": 1 if prop == "C07" else 0}
             c.update(cfgmix())
             yield ("runs", c)
+            if prop in ("C12", "C08") and k % 3 == 0 and len(S) > 8:
+                b = dict(c)
+                b["bursts"] = sorted(rng.sample(range(1, len(S)), min(len(S) - 1, rng.randrange(1, 6))))
+                yield ("runs", b)
 
     def gen_library():
         """C06 S->C: every sequence of <=3 (thorough <=4) items of a 13-item concrete library (as MC_ReaderLemmas)"""
@@ -153,6 +195,8 @@ def reader_check(ctx, prop):
         run_batch(ctx, MODULE, CFG, gen_library(), st.OBSERVERS, sigfn, neg, chunk=8000)
     if alpha_len:
         run_batch(ctx, MODULE, CFG, gen_small(), st.OBSERVERS, sigfn, neg, chunk=20000)
+    if prop in ("C09", "C07", "C06", "C12"):
+        run_batch(ctx, MODULE, CFG, gen_nested(), st.OBSERVERS, sigfn, neg, chunk=40 if prop == "C09" else 120, neg_every=7)
     run_batch(ctx, MODULE, CFG, gen_big(), st.OBSERVERS, sigfn, neg, chunk=40 if prop in ("C09", "C11") else 120, neg_every=7)
     ctx.exhaustive = False
     ctx.extra["alphabet_max_len"] = alpha_len
